@@ -259,22 +259,62 @@ def match_consumption(body, uses, tr, local, b, discr_dest, chain):
         tt = body.term(x)
         if tt["k"] == "call" and tt["dest"]["l"] == 0 and is_callee(tt, r"FromResidual.*::from_residual$"):
             found = True
+        if tt["k"] == "call" and tt["dest"]["l"] == 0 and "p" not in tt["dest"] and tt["args"] and \
+                is_callee(tt, r"ResultWithExecutionError<R>>::with_context$|ResultWithExecutionError::with_context$"):
+            # `Err(e) => return Err(e).with_context(..)`: the spelled-out form of `.with_context(..)?` (with_context passes Cancelled through)
+            inner = strip(tr.operand(tt["args"][0]))
+            if inner[0] == "agg" and inner[3] == "Err" and inner[5]:
+                found = True
+                pe = strip(inner[5][0])
+                while pe[0] == "call" and pe[3] and re.search(r"convert::(Into::into|From::from)$", pe[1] or ""):
+                    pe = strip(pe[3][0])
+                ok_same = False
+                if pe[0] == "place" and pe[2] and pe[2][0][0] == "downcast" and pe[2][0][2] in ("Err", "Break") and len(pe[2]) == 2:
+                    ok_same = strip(pe[1]) == strip(tr.local(local))
+                same = same and ok_same
     detail = "the Err edge always ends in an error return"
     if found and same:
         detail = "SAME-ERROR: " + detail + " carrying the matched error itself"
     return Consumption("MATCH-ERR", detail, sp_str(t.get("sp")), chain)
 
 
-def _failure_blocks(body):
+_ALWAYS_FAILS = {}
+
+
+def _always_fails(prog, fid, depth=0):
+    """a crate-local function none of whose paths returns normally (an error constructor such as `fn duplicate(..) -> Result<(), E>`
+    whose body is `Err(..).with_context(..)`)"""
+    key = (id(prog), fid, getattr(prog, "_raw_mode", False))
+    if key in _ALWAYS_FAILS:
+        return _ALWAYS_FAILS[key]
+    _ALWAYS_FAILS[key] = False
+    g = prog.fns.get(fid)
+    if g is None or g.body is None or depth > 2 or not is_fallible_type(g, g.body.locals[0]["ty"]):
+        return False
+    fb = _failure_blocks(g.body, depth + 1)
+    res = bool(fb) and not (g.body.reach_from([0], avoid=fb) & set(g.body.return_blocks()))
+    _ALWAYS_FAILS[key] = res
+    return res
+
+
+def _failure_blocks(body, depth=0):
+    from ..lib.cfgq import return_carriers
+    rc = return_carriers(body)
     out = set()
+    prog = getattr(body.fn, "_prog", None)
     for b in sorted(body.reachable()):
         t = body.term(b)
-        if t["k"] == "call" and is_callee(t, r"FromResidual.*::from_residual$") and t["dest"]["l"] == 0:
+        if t["k"] == "call" and is_callee(t, r"FromResidual.*::from_residual$") and t["dest"]["l"] in rc and "p" not in t["dest"]:
             out.add(b)
+        if t["k"] == "call" and prog is not None and "p" not in t["dest"] and t["dest"]["l"] in rc and depth < 2:
+            fr = callee_fn(t)
+            tgt = fr.get("rdef") or fr["def"]
+            if tgt in prog.fns and tgt != body.fn.id and _always_fails(prog, tgt, depth):
+                out.add(b)      # `return make_error(..)`: the helper only ever returns Err
         if t["k"] == "call" and is_callee(t, r"core::panicking::|std::rt::begin_panic"):
             out.add(b)
         for st in body.blocks[b]["stmts"]:
-            if st["k"] == "assign" and st["p"]["l"] == 0 and "p" not in st["p"] and st["rv"]["k"] == "aggregate" \
+            if st["k"] == "assign" and st["p"]["l"] in rc and "p" not in st["p"] and st["rv"]["k"] == "aggregate" \
                     and st["rv"].get("variant") in ("Err",):
                 out.add(b)
     # a block that moves an Err-typed local into _0 after building it elsewhere: `_0 = move _x` where _x was
@@ -537,7 +577,7 @@ def _run_e2c(prog, rep):
         counter = {}
         for b, t in fallible_calls(f):
             fr = callee_fn(t)
-            if fr is None:
+            if not fr:
                 continue
             tgt = fr.get("rdef") or fr["def"]
             targets = [tgt] if tgt in prog.fns else []
@@ -603,7 +643,7 @@ def _run_e2c(prog, rep):
                         if tt["k"] != "call" or x == b:
                             continue
                         fr2 = callee_fn(tt)
-                        if fr2 is None:
+                        if not fr2:
                             continue
                         tg2 = fr2.get("rdef") or fr2["def"]
                         cands = [tg2] if tg2 in prog.fns else []
